@@ -1,0 +1,4 @@
+#ifndef PPL_COPYING_hh
+#define PPL_COPYING_hh 1
+extern const char* const COPYING_array[675];
+#endif // !defined(PPL_COPYING_hh)
